@@ -14,8 +14,8 @@
      non-vectorized           : one buffer per graph edge (`_out{i}`); two edges between the same variable pair on a
                                  buffered source do not compile (IndexError at the first call)
      _solve_euler / _solve_heun: one / two rhs calls per step (the buffer advances at every call).
-   Circuits of the correspondence run: source nodes x' = k (class 0) or x' = k + k (class 1), target nodes
-   x' = r_in (class 0) or x' = r_in + r_in (class 1), edges source -> target. *)
+   Circuits of the correspondence run: source nodes x' = k + .. + k, target nodes x' = r_in + .. + r_in (class c has c+1
+   summands; nodes of one class are merged by vectorization), edges source -> target. *)
 From Coq Require Import List ZArith QArith Qcanon Qround Bool Arith.
 Import ListNotations.
 
@@ -69,7 +69,8 @@ Record edge := mkEdge { esrc : nat; etgt : nat; ew : Qc; ed : dspec }.
 Record circuit := mkC { cdt : Qc; cvec : bool; cheun : bool; cnodes : list node; cedges : list edge }.
 
 Definition dnode : node := mkNode false 0 0%Qc 0%Qc.
-Definition nfac (n : node) : Qc := if Nat.eqb (ncls n) 0 then 1%Qc else (1 + 1)%Qc.
+(* class c: x' = k + ... + k resp. x' = r_in + ... + r_in with c+1 summands *)
+Definition nfac (n : node) : Qc := Q2Qc (inject_Z (Z.of_nat (S (ncls n)))).
 Definition getn (c : circuit) (i : nat) : node := nth i (cnodes c) dnode.
 
 Definition dspec_eq_dec (a b : dspec) : {a = b} + {a <> b}.
